@@ -114,12 +114,12 @@ pub fn check_pos(ctx: &mut Ctx, mp: &MPos, b: &Board) {
 }
 
 pub fn run(ctx: &mut Ctx) {
-    let n = ctx.budget(150_000, 6_000_000);
+    let n = ctx.budget(2_000_000, 25_000_000);
     let mut src = Sources::standard(n);
     src.three_man = if ctx.tier == crate::ctx::Tier::Thorough && ctx.config != "miri" { u64::MAX } else { n / 3 };
     stream::run(ctx, &src, &mut check_pos);
     // material x clock grid: few-men positions at every clock threshold
-    let extra = ctx.budget(30_000, 1_000_000);
+    let extra = ctx.budget(400_000, 5_000_000);
     for _ in 0..extra {
         let mut p = crate::gen::fam_material(&mut ctx.rng);
         p.halfmove = *ctx.rng.pick(&[0u16, 98, 99, 100, 101, 148, 149, 150, 151, 65535]);
